@@ -140,9 +140,24 @@ def aff_inv0(I):
     return [("ncpus > 0 and a multiple of 64", Z.And(n.t > 0, Z.URem(n.t, cvc.bvc(64, 32)) == 0))]
 
 
+def aff_roles(I):
+    """the two loop variables by ROLE, not by name (robust to renaming): the countdown starts at P(0), the scan index at 0"""
+    g = I.ghost["popcount"]
+    if "roles" not in g:
+        p0 = g["P"](cvc.bvc(0, 64))
+        cnt = [c for c in I.loop_mods if isinstance(c.value, cvc.IV) and c.value.bits == 32 and Z.eq(Z.simplify(c.value.t), Z.simplify(p0))]
+        idx = [c for c in I.loop_mods if isinstance(c.value, cvc.IV) and c.value.bits == 32 and Z.is_bv_value(Z.simplify(c.value.t))
+               and Z.simplify(c.value.t).as_long() == 0 and c not in cnt]
+        if len(cnt) != 1 or len(idx) != 1:
+            raise cvc.Unsupported("affinity scan: cannot tell the countdown and the index variable apart")
+        g["roles"] = (idx[0], cnt[0])
+    return g["roles"]
+
+
 def aff_inv1(I):
     g = I.ghost["popcount"]
-    cpu, cnt = I.var("cpu").get(I), I.var("count").get(I)
+    cpu_c, cnt_c = aff_roles(I)
+    cpu, cnt = cpu_c.get(I), cnt_c.get(I)
     c64 = Z.SignExt(32, cpu.t)
     return [("0 <= cpu <= 8*setsize", Z.And(cpu.t >= 0, Z.ULE(c64, g["N"]))),
             ("count == number of set bits from cpu on", cnt.t == g["P"](c64)),
@@ -150,7 +165,7 @@ def aff_inv1(I):
 
 
 def aff_lemmas(I):
-    c64 = Z.SignExt(32, I.var("cpu").get(I).t)
+    c64 = Z.SignExt(32, aff_roles(I)[0].get(I).t)
     return cvc.popcount_axioms(I, c64) + cvc.popcount_axioms(I, c64 - 1)
 
 
@@ -166,7 +181,7 @@ def post_aff_get(I, x):
     if x.null or "popcount" not in g:
         return []
     # the scan stopped because no set bit is left: P(cpu) == count == 0
-    cpu, cnt = I.var("cpu").get(I), I.var("count").get(I)
+    cpu, cnt = (c.get(I) for c in g["popcount"]["roles"])
     return [("the scan ends only when no set bit is left (count == P(cpu) == 0)",
              Z.And(cnt.t == 0, g["popcount"]["P"](Z.SignExt(32, cpu.t)) == 0)),
             ("the cpu set is released exactly once", all(not m.alive for m in g.get("heap", [])))]
